@@ -304,6 +304,7 @@ type Contract struct {
 	Requires  []Clause
 	Ensures   []Clause
 	MayPanic  []Clause
+	Facts     []Clause // assumed at entry; each must name (label) the ground obligation that backs it
 	Assigns   []string
 	HasAssign bool
 	Writes    []string // extern: names of params whose pointee is overwritten
@@ -616,7 +617,7 @@ func (cs *ContractSet) parseContractFile(path, pkgPath string) error {
 				} else {
 					cur.Assigns = append(cur.Assigns, fieldsComma(rest)...)
 				}
-			case "requires", "ensures", "may_panic", "invariant", "lemma_local":
+			case "requires", "ensures", "may_panic", "invariant", "lemma_local", "fact":
 				if word == "may_panic" {
 					rest = strings.TrimPrefix(rest, "when ")
 				}
@@ -629,6 +630,8 @@ func (cs *ContractSet) parseContractFile(path, pkgPath string) error {
 					cur.Requires = append(cur.Requires, c)
 				case "ensures":
 					cur.Ensures = append(cur.Ensures, c)
+				case "fact":
+					cur.Facts = append(cur.Facts, c)
 				case "may_panic":
 					cur.MayPanic = append(cur.MayPanic, c)
 				case "invariant":
